@@ -105,6 +105,11 @@ def run(case, schedule, crashes=(), seed=0, store="file"):
     try:
         eng = w.add_engine("A")
         H.install_workers(w, case["definition"], case.get("oracle") or {}, dup_replies=case.get("dup_replies", 0))
+        for nm_, d_ in (case.get("extra_machines") or {}).items():
+            H.install_workers(w, d_, case.get("oracle") or {}, dup_replies=case.get("dup_replies", 0))
+            st, r = w.create_state_machine(nm_, d_)
+            if st != 200:
+                raise HarnessError("CreateStateMachine refused the machine %s: %r" % (nm_, r))
         st, r = w.create_state_machine("m1", case["definition"], type_=case.get("type", "STANDARD"))
         if st != 200:
             raise HarnessError("CreateStateMachine refused a generated machine: %r" % (r,))
@@ -249,7 +254,7 @@ def judge(case, base, got, crashes):
 def evaluate(c):
     """c: dict(definition,input,oracle,type,schedule,crashes) -> (fails, nontrivial, info)"""
     case = {k: c[k] for k in ("definition", "input", "oracle", "type")}
-    case.update({k: c[k] for k in ("dup_replies", "dups_known", "orphan_retention_ms") if k in c})       # (options of the directed families travel with the case)
+    case.update({k: c[k] for k in ("dup_replies", "dups_known", "orphan_retention_ms", "extra_machines") if k in c})       # (options of the directed families travel with the case)
     base = run(case, c["schedule"], (), store=c.get("store", "file"))
     if base["exceptions"] or not base["quiescent"]:
         return [], False, {"skipped": "baseline not clean"}
@@ -360,7 +365,15 @@ def rebuildable_fanouts():
     out.append(("map-blocks", mpb, {"items": [{"d": 0}, {"d": 1}, {"d": 0, "k": 2}, {"d": 1, "k": 3}, {"d": 0, "k": 4}]}))
     oracle = {"slow1": {"seq": [{"ok": "$echo", "delay": 3}]}, "byitem": {"seq": [{"ok": "$echo"}], "by_key": {json.dumps({"d": 3}): [{"ok": "$echo", "delay": 3}], json.dumps({"d": 1}): [{"ok": "$echo", "delay": 1}]}}}
     oracle["byitem"]["by_key"][json.dumps({"d": 1, "k": 3})] = [{"ok": "$echo", "delay": 1}]
-    return [{"definition": d, "input": i, "oracle": oracle, "type": "STANDARD", "label": lab, "dups_known": lab == "map-blocks"} for lab, d, i in out]
+    cases_ = [{"definition": d, "input": i, "oracle": oracle, "type": "STANDARD", "label": lab, "dups_known": lab == "map-blocks"} for lab, d, i in out]
+    # a parent whose Task runs a child execution synchronously (the engine chooses the child's name): after a restart the redelivered Task is not launched again, it
+    # waits for the child it launched before the crash
+    child = {"StartAt": "K1", "States": {"K1": T("slow1", "K2"), "K2": {"Type": "Pass", "Parameters": {"fromChild.$": "$.t"}, "End": True}}}
+    for form in ("startExecution.sync", "startExecution.sync:2"):
+        parent = {"StartAt": "L", "States": {"L": {"Type": "Task", "Resource": "arn:aws:states:::states:" + form, "Parameters": {"StateMachineArn": "arn:aws:states:local:0123456789:stateMachine:kid", "Input": {"v": 20}},
+                                                   "ResultSelector": {"out.$": "$.Output", "status.$": "$.Status"}, "ResultPath": "$.child", "Next": "Z"}, "Z": {"Type": "Pass", "End": True}}}
+        cases_.append({"definition": parent, "input": {"x": 1}, "oracle": oracle, "type": "STANDARD", "label": "sync-child-" + form.split(".")[-1], "extra_machines": {"kid": child}})
+    return cases_
 
 
 def rebuildable_shard(k, seed, tier, nshards=1):
@@ -381,6 +394,8 @@ def rebuildable_shard(k, seed, tier, nshards=1):
         c = {"definition": case["definition"], "input": case["input"], "oracle": case["oracle"], "type": case["type"], "schedule": [], "crashes": [p]}
         if case.get("dups_known"):
             c["dups_known"] = True
+        if case.get("extra_machines"):
+            c["extra_machines"] = case["extra_machines"]
         try:
             got = run(case, [], [p])
             fails, nt = judge(case, base, got, [p])
